@@ -569,7 +569,7 @@ struct LcSim : Harness {
     for (auto d : model.entered) { std::string q = prog::ps_of(*d); int ni = 0, nf = 0, words = 0; for (char c : q) { if (c == 'l') { if (words & 1) { C->count("ld_stack_arg_after_odd_words_entered"); break; } words += 2; } else if (prog::int_kind(c)) { if (++ni > 6) words++; } else if (++nf > 8) words++; } }
     if (interp) {
       MIR_val_t res, vals[80]; memset(vals, 0, sizeof vals); memset(&res, 0, sizeof res);
-      uint64_t blkmem[8][3]; int nb = 0;
+      uint64_t blkmem[8][4]; int nb = 0;
       { int ai = 0, di = 0, k = 0; for (char c : ps) { if (const prog::BlkInfo *bi = prog::blk_info(c)) { int64_t v = args[(size_t) ai++]; for (int j = 0; bi->fields[j]; j++) { uint64_t raw = prog::blk_field(bi->fields[j], v, j); if (bi->fields[j] == 'q') blkmem[nb][j] = raw; else { double x = (double) raw; memcpy(&blkmem[nb][j], &x, 8); } } vals[k++].a = blkmem[nb++]; C->count("block_argument_entered"); }
         else if (prog::int_kind(c)) vals[k++].i = args[(size_t) ai++]; else if (c == 'd') vals[k++].d = 2.0 + di++; else if (c == 'f') vals[k++].f = 2.0f + (float) di++; else vals[k++].ld = 2.0L + di++; } }
       if (!(op.size() > 3 && op[3].num() != 0)) MIR_interp_arr(ctx, f->item, &res, (size_t) (na + nd), vals);
@@ -687,7 +687,7 @@ struct LcSim : Harness {
     bool big = r.chance(1, 6);   // large bodies: code that spans pages, many switch tables (absolute-address relocations)
     if (big) { go.body = (int) r.range(20, 70); go.nfuncs = (int) r.range(2, 5); }
     // swarm: feature subset per run
-    go.lref = r.chance(1, 2); go.jt = r.chance(1, 2); go.sw = r.chance(2, 3); go.icall = r.chance(1, 2); go.ext = r.chance(2, 3); go.mem = r.chance(1, 2); go.loops = r.chance(2, 3); go.doubles = r.chance(1, 3); go.recursion = r.chance(1, 2); go.extn = r.chance(1, 4); go.wide = r.chance(1, 8); go.typed = r.chance(1, 3); go.extm = r.chance(1, 4); go.blocks = r.chance(1, 2);
+    go.lref = r.chance(1, 2); go.jt = r.chance(1, 2); go.sw = r.chance(2, 3); go.icall = r.chance(1, 2); go.ext = r.chance(2, 3); go.mem = r.chance(1, 2); go.loops = r.chance(2, 3); go.doubles = r.chance(1, 3); go.recursion = r.chance(1, 2); go.extn = r.chance(1, 4); go.wide = r.chance(1, 8); go.typed = r.chance(2, 5); go.extm = r.chance(1, 4); go.blocks = r.chance(2, 3);
     if (big) { go.sw = true; go.sw_weight = 30; go.recursion = false; }
     go.blocked = r.coin();
     prog::Generator g(r, go); Json prog = g.program(); prog::protect_fuel(prog);
@@ -761,7 +761,7 @@ struct LcSim : Harness {
     // optional re-entry of MIR from the external
     if (go.ext && r.chance(1, 2)) {
       Json re = Json::object();
-      for (auto &mo : prog.at("mods").a) for (auto &f : mo.at("funcs").a) { bool leaf = true; prog::walk(f.at("body"), [&](const Json &st) { if (st[0].s == "call" || st[0].s == "icall" || st[0].s == "ext" || st[0].s == "jt" || st[0].s == "lt" || st[0].s == "ld" || st[0].s == "extn" || st[0].s == "extm") leaf = false; }); if (leaf && f.geti("na") >= 2 && !f.has("ps") && !f.has("rt") && re.size() < 2) re.set(std::to_string(1 + (int) re.size() * 2), f.gets("name")); }
+      for (auto &mo : prog.at("mods").a) for (auto &f : mo.at("funcs").a) { bool leaf = true; prog::walk(f.at("body"), [&](const Json &st) { if (st[0].s == "call" || st[0].s == "icall" || st[0].s == "ext" || st[0].s == "jt" || st[0].s == "lt" || st[0].s == "ld" || st[0].s == "extn" || st[0].s == "extm") leaf = false; }); if (leaf && f.geti("na") >= 2 && f.geti("na") <= 8 && !f.has("ps") && !f.has("rt") && re.size() < 2) re.set(std::to_string(1 + (int) re.size() * 2), f.gets("name")); }
       if (re.size()) kn.set("reenter", re);
     }
     { Rng rv(mix2(r.next(), 0x7661726961646963ull)); for (auto &op : ops.a) if (op[0].s == "interp") op.push((int) rv.coin()); }  // 1: enter through the variadic MIR_interp, 0: MIR_interp_arr
@@ -773,8 +773,45 @@ struct LcSim : Harness {
   // anything the history did.  Decide by experiment: the same program, in a fresh context, with the most ordinary
   // history (scan, load, link with eager generation) at each optimization level.  If that crashes too, the history is
   // not to blame and the death is counted as a side finding, not as a verdict on a history property.
+  // The same program with the most ordinary history under each engine: interpreter, eager generation at -O0 .. -O3.
+  // One letter per engine: O as the model says, W wrong value, C crash, H watchdog, X another violation.
+  std::string engine_profile(const Json &plan, int tmo) {
+    std::string prof;
+    for (int round = -1; round < 4; round++) {
+      bool interp = round < 0; Json p = plan; Json ops = Json::array(); size_t nm = plan.at("prog").at("mods").size();
+      auto push = [&](std::initializer_list<Json> l) { Json o = Json::array(); for (auto &x : l) o.push(x); ops.push(o); };
+      push({"opt", interp ? 2 : round});
+      for (size_t mi = 0; mi < nm; mi++) { push({"scan", (long long) mi}); push({"load", (long long) mi}); }
+      push({"link", interp ? 1 : 2, 0});
+      for (auto &op : plan.at("ops").a) if (op.k == Json::Arr && op.size() > 1 && (op[0].s == "call" || op[0].s == "interp")) { Json c = op; if (!interp) c[0] = Json("call"); ops.push(c); }
+      p.set("ops", ops); p["knobs"].set("placement", (int) P_PACKED_FAR);
+      ChildEnd c = run_isolated(*this, p, tmo, false);
+      prof += c.status == "ok" ? 'O' : c.status == "hang" ? 'H' : c.status == "crash" ? 'C' : (c.cls == "wrong_result" || c.cls == "wrong_ext_log") ? 'W' : 'X';
+    }
+    return prof;
+  }
+  // Engines that disagree on an ordinary history at the level of the execution machinery -- the interpreter alone fails, or
+  // generated code fails already without optimization -- make the program's behaviour depend on the interface: that is C03's
+  // subject.  A failure of every engine (front end, inliner, the model itself) or of optimized code only (C01/C02) is not.
+  static bool machinery_level(const std::string &prof) {
+    bool interp_bad = prof[0] != 'O', gen0_bad = prof[1] != 'O', gen_all_bad = prof[1] != 'O' && prof[2] != 'O' && prof[3] != 'O' && prof[4] != 'O';
+    bool gen_any_bad = prof.find_first_not_of('O', 1) != std::string::npos;
+    if (interp_bad && gen_all_bad) return false;   // everybody
+    if (interp_bad && !gen_any_bad) return true;   // interpreter only
+    if (!interp_bad && gen0_bad) return true;      // generated code without optimization
+    return false;
+  }
   void reclassify(const Json &plan, ChildEnd &e) override {
     if (!plan.has("prog")) return;
+    std::string before_cls = e.cls, before_sig = e.sig;
+    reclassify1(plan, e);
+    if (e.cls.compare(0, 19, "side_program_level_") == 0 && plan.at("knobs").gets("mode", "") == "C03") {
+      std::string prof = engine_profile(plan, before_cls == "hang" ? 12 : hang_seconds());
+      if (machinery_level(prof)) { e.detail = "engines disagree on the ordinary history of this program (interp, gen -O0..-O3: " + prof + "): " + e.detail; e.cls = "engines_disagree"; e.sig = before_cls + "_" + e.sig + "_" + prof; }
+      else e.detail = "[" + prof + "] " + e.detail;
+    }
+  }
+  void reclassify1(const Json &plan, ChildEnd &e) {
     // Modules created through c2mir carry whatever c2mir made of the generated C.  If the very same history with those
     // modules created from the MIR text of the same program (scan) behaves, the fault lies in the C translation (C07
     // territory: e.g. a 32-bit result whose undefined upper half is used, which makes the outcome depend on stale
